@@ -17,7 +17,7 @@ def front(ctx, need_exec=True):
     for e in errs: broken.append("translator: " + e)
     vfile = "theories/Properties/%s.v" % ctx.pid
     theorems, discharged = [], 0
-    rc, out = coq_build(["theories/Model/Exec.vo", "theories/Model/Fold.vo"])
+    rc, out = coq_build()
     if rc != 0: broken.append("model build failed: " + out[-400:])
     if os.path.exists(os.path.join(V, vfile)):
         rc, out = coq_build([vfile + "o"])
@@ -162,8 +162,90 @@ def replay_exec(ctx, path):
         print("replay: the recorded input no longer violates %s" % ctx.pid); return 0
     print("replay: broken-obligation record; re-running the check"); return run_exec(ctx)
 
+# ------------------------------------------------------------------ API-family properties (C16, C17, C18 shape)
+API_PROPS = {
+    "C16": (["C16"], (8, 1500), (16, 40000)),
+    "C17": (["C17"], (8, 1500), (16, 40000)),
+}
+
+def api_single(pat, flags, hay_hex):
+    """Re-run one (pattern, flags) through the api stream restricted to one haystack; returns PROPVIOL lines."""
+    d = os.path.join(BUILD, "tmp"); os.makedirs(d, exist_ok=True)
+    f = os.path.join(d, "api_%d.txt" % os.getpid())
+    open(f, "w").write("%s\t%s\t%s\n" % (flags or "-", encode_pat(pat), hay_hex or "-"))
+    rc, out = sh("set -o pipefail; %s apicases %s | %s api" % (harness_bin(), f, os.path.join(BUILD, "extract", "driver")), 300)
+    os.remove(f)
+    return [l for l in out.split("\n") if l.startswith("PROPVIOL")], [l for l in out.split("\n") if l.startswith("MISMATCH")], out
+
+def viol_class(detail):
+    """Class of an API violation: the detail with numbers stripped (so one replay per kind of failure)."""
+    return re.sub(r"[0-9a-f_]+", "#", detail)
+
+def run_api(ctx):
+    kinds, quick, thorough = API_PROPS[ctx.pid]
+    shards, n = quick if ctx.tier == "quick" else thorough
+    fr = front(ctx)
+    broken = list(fr["broken"])
+    known = load_known()
+    summary, mism, pv = {}, [], []
+    if not any("build failed" in b for b in broken):
+        summary, mism, pv, errs = run_stream_shards("api", "api", ctx.seed, shards, n)
+        for e in errs: broken.append("pipeline: " + e)
+    ctx.note("correspondence(api): %s mismatches=%d propviol(all kinds)=%d" % (summary, len(mism), len(pv)))
+    mine = [pv_case(l) for l in pv if parse_kv(l).get("prop") in kinds]
+    classes = {}
+    for c in sorted(mine, key=lambda c: (len(c["pat"]), len(c["hay"]))):
+        classes.setdefault(viol_class(c["detail"]), c)
+    reported = 0
+    for cls, c in list(classes.items()):
+        kf = None
+        for k in known:
+            if k["property"] == ctx.pid and k["key"] and k["key"].startswith("class:") and k["key"][6:] == cls: kf = k
+        if kf:
+            msg = "KNOWN-FINDING: property=%s %s" % (ctx.pid, kf["what"])
+            if msg not in ctx.known: ctx.known.append(msg); print(msg, flush=True)
+            continue
+        if reported >= 4: continue
+        def pred(cc, prop=c["prop"], cls=cls):
+            pvl, _, _ = api_single(cc["pat"], cc["flags"], cc["hay"].hex())
+            return any(parse_kv(l).get("prop") == prop and viol_class(parse_kv(l).get("detail", "")) == cls for l in pvl)
+        small = shrink(c, pred) if pred(c) else c
+        pvl, _, _ = api_single(small["pat"], small["flags"], small["hay"].hex())
+        det = [parse_kv(l).get("detail", "") for l in pvl if viol_class(parse_kv(l).get("detail", "")) == cls]
+        path = write_replay(ctx, "input", dict(kind="failing-input", stream="api", flags=small["flags"], pattern=small["pat"], pattern_hex=encode_pat(small["pat"]),
+                                               haystack_hex=small["hay"].hex(), haystack=small["hay"].decode("utf8", "replace"),
+                                               detail=det[0] if det else c["detail"], violation_class=cls))
+        report_violation(ctx, path); reported += 1
+    if mism: broken.append("correspondence S7(api): %d disagreements, first: %s" % (len(mism), mism[0][:300]))
+    if broken and reported == 0:
+        path = write_replay(ctx, "tie", dict(kind="broken-obligation", broken=broken,
+                                             note="the theorem or correspondence named here no longer checks; the property evaluation on the implementation found no violating input"))
+        report_violation(ctx, path, no_input=True)
+    nth = len(fr["theorems"])
+    cov = dict(obligations=max(nth, 1), discharged=fr["discharged"] if nth else 0,
+               checker_cmd="make -f Makefile.coq theories/Properties/%s.vo && coqc Print Assumptions; rvharness api | driver api" % ctx.pid,
+               trusted_base=TRUSTED_BASE, evaluations=summary.get("runs", 0), distinct_nontrivial=summary.get("nontrivial", 0),
+               rule="patterns with named/unnamed/duplicate-named groups x haystacks x templates; every accessor and replace* result compared with the extracted Coq model; non-trivial = a match with at least one participating capture",
+               samples=[dict(pattern=c["pat"], flags=c["flags"], haystack_hex=c["hay"].hex(), detail=c["detail"]) for c in list(classes.values())[:3]] or [dict(theorems=fr["theorems"][:8])],
+               programs=max(summary.get("cases", 0), 1), disagreements_checked=len(mism), theorems=fr["theorems"])
+    level = "proof" if nth and fr["discharged"] == nth and not broken else "translation_validation"
+    write_evidence(ctx, level, cov, ["Api.v is tied to api.rs by differential runs through the public API only"])
+    return 1 if ctx.violations else 0
+
+def replay_api(ctx, path):
+    obj = json.load(open(path))
+    front(ctx)
+    if obj.get("kind") == "failing-input":
+        pvl, mm, out = api_single(obj["pattern"], obj["flags"], obj["haystack_hex"])
+        print(out[-1500:])
+        if any(parse_kv(l).get("prop") in API_PROPS[ctx.pid][0] for l in pvl):
+            print("VIOLATION property=%s replay=%s" % (ctx.pid, path)); return 1
+        print("replay: the recorded input no longer violates %s" % ctx.pid); return 0
+    return run_api(ctx)
+
 PROPS = {}
 for _p in EXEC_PROPS: PROPS[_p] = (run_exec, replay_exec)
+for _p in API_PROPS: PROPS[_p] = (run_api, replay_api)
 
 def run(ctx):
     return PROPS[ctx.pid][0](ctx)
